@@ -301,6 +301,90 @@ func runC10Several(c *ev.Case, ctx *lib.Ctx, bad int, allByIdx bool, goodFirst i
 	c.Event("server_sequences", 1)
 }
 
+// runC10AtOnce: K peers that have completed the capabilities exchange on one state machine send
+// bursts of different application messages at the same moment: every message reaches exactly
+// the handler that the dispatch rule selects for it, once.
+func runC10AtOnce(c *ev.Case, ctx *lib.Ctx, K, per int, allByIdx bool) {
+	sig := func(op string) ev.Sig { return ev.Sig{"op": op, "role": "server", "suite": "peers-at-once"} }
+	settings := &sm.Settings{OriginHost: "srv.local", OriginRealm: "realm.local", VendorID: 13, ProductName: "verif",
+		HostIPAddresses: []datatype.Address{datatype.Address([]byte{192, 0, 2, 1})}}
+	machine := sm.New(settings)
+	l := &hlog{}
+	instrument(machine, l, allByIdx)
+	ln := memnet.NewListener()
+	srv := &diam.Server{Handler: machine, Dict: ctx.Parser}
+	go srv.Serve(ln)
+	conns := make([]*memnet.Conn, K)
+	for i := range conns {
+		conns[i] = memnet.NewConn()
+		conns[i].Remote = memnet.Addr{Net: "tcp", Str: fmt.Sprintf("10.0.0.%d:4100", i+1)}
+		ln.Offer(conns[i])
+		conns[i].Feed(c10Wire(pCERok, uint32(9000+i)))
+	}
+	synctest.Wait()
+	defer func() {
+		for _, mc := range conns {
+			mc.FeedEOF()
+		}
+		ln.Close()
+		synctest.Wait()
+	}()
+	kinds := []int{pReqA, pReqB, pAns, pUnreg, pDWR}
+	var want []string
+	bursts := make([][]byte, K)
+	for i := range conns {
+		for k := 0; k < per; k++ {
+			kind := kinds[(i+k*(i+1))%len(kinds)]
+			hbh := uint32(20000 + i*1000 + k)
+			bursts[i] = append(bursts[i], c10Wire(kind, hbh)...)
+			if kind != pDWR {
+				want = append(want, fmt.Sprintf("%s:%d", appKey(kind), hbh))
+			}
+		}
+	}
+	for i, mc := range conns {
+		mc.Feed(bursts[i])
+	}
+	synctest.Wait()
+	got := l.snapshot()
+	sort.Strings(got)
+	sort.Strings(want)
+	if fmt.Sprint(got) != fmt.Sprint(want) {
+		missing, extra := diffSorted(want, got)
+		c.Fail(sig("handler-log-differs"), nil, nil, "%d handshaken peers sent %d messages each at the same moment: %d expected handler invocations did not happen (e.g. %v), %d unexpected ones did (e.g. %v)", K, per, len(missing), head(missing), len(extra), head(extra))
+		return
+	}
+	c.Event("app_invocations", len(got))
+	c.Event("server_sequences", 1)
+}
+
+func diffSorted(want, got []string) (missing, extra []string) {
+	w := map[string]int{}
+	for _, s := range want {
+		w[s]++
+	}
+	for _, s := range got {
+		if w[s] > 0 {
+			w[s]--
+		} else {
+			extra = append(extra, s)
+		}
+	}
+	for s, n := range w {
+		for ; n > 0; n-- {
+			missing = append(missing, s)
+		}
+	}
+	return
+}
+
+func head(s []string) []string {
+	if len(s) > 3 {
+		return s[:3]
+	}
+	return s
+}
+
 func runC10Server(c *ev.Case, ctx *lib.Ctx, seq []int, oneSegment bool, allByIdx bool) {
 	settings := &sm.Settings{OriginHost: "srv.local", OriginRealm: "realm.local", VendorID: 13, ProductName: "verif",
 		HostIPAddresses: []datatype.Address{datatype.Address([]byte{192, 0, 2, 1})}}
@@ -435,10 +519,12 @@ const (
 	qAns
 	qUnreg
 	qDWR
+	qCER    // the peer sends a capabilities-exchange request of its own (a client does not answer it: no handshake results from it)
+	qCERApp // ... with a non-zero application id in its header
 	nClientMsgs
 )
 
-var qNames = []string{"CEA-ok", "CEA-bad", "ReqA(name)", "ReqB(index)", "Answer", "Unregistered", "DWR"}
+var qNames = []string{"CEA-ok", "CEA-bad", "ReqA(name)", "ReqB(index)", "Answer", "Unregistered", "DWR", "CER-from-peer", "CER-from-peer(app 4)"}
 
 func runC10Client(c *ev.Case, ctx *lib.Ctx, seq []int, allByIdx bool) {
 	settings := &sm.Settings{OriginHost: "cli.local", OriginRealm: "realm.local", VendorID: 13, ProductName: "verif",
@@ -470,6 +556,10 @@ func runC10Client(c *ev.Case, ctx *lib.Ctx, seq []int, allByIdx bool) {
 			w = c10Wire(pUnreg, hbh)
 		case qDWR:
 			w = c10Wire(pDWR, hbh)
+		case qCER:
+			w = c10Wire(pCERok, hbh)
+		case qCERApp:
+			w = c10Wire(pCERokApp, hbh)
 		}
 		_ = w
 		if state == "ok" && (k == qReqA || k == qReqB || k == qAns || k == qUnreg) {
@@ -519,6 +609,10 @@ func runC10Client(c *ev.Case, ctx *lib.Ctx, seq []int, allByIdx bool) {
 				stream = append(stream, c10Wire(pUnreg, hbh)...)
 			case qDWR:
 				stream = append(stream, c10Wire(pDWR, hbh)...)
+			case qCER:
+				stream = append(stream, c10Wire(pCERok, hbh)...)
+			case qCERApp:
+				stream = append(stream, c10Wire(pCERokApp, hbh)...)
 			}
 		}
 		mc.Feed(stream)
@@ -632,6 +726,12 @@ func TestC10(t *testing.T) {
 		run(c, func() { runC10Several(c, ctx, bad, byIdx, goodFirst) })
 	})
 	rec.Exhaustive("several-peers")
+	rec.Suite("peers-at-once", rec.N(60, 20000), func(c *ev.Case) {
+		K := 2 + c.I%5
+		c.Class("peers-at-once/K=%d", K)
+		c10Dress = c.I
+		run(c, func() { runC10AtOnce(c, ctx, K, 30, c.I%2 == 0) })
+	})
 	// client role: all sequences up to length 4 with at most one CEA
 	var cseqs [][]int
 	var cbuild func(cur []int, ceas int)
